@@ -13,6 +13,7 @@ mod c11;
 mod c13;
 mod c14;
 mod c15;
+mod c16;
 mod c17;
 mod c18;
 mod machine;
@@ -24,6 +25,7 @@ pub struct Sessions {
     pub c13: c13::State,
     pub c14: c14::State,
     pub c15: c15::State,
+    pub c16: c16::State,
     pub c18: c18::State,
     pub machine: machine::State,
 }
@@ -43,6 +45,7 @@ fn dispatch(sess: &mut Sessions, req: &Value) -> Value {
         "c13" => c13::handle(verb, req, &mut sess.c13),
         "c14" => c14::handle(verb, req, &mut sess.c14),
         "c15" => c15::handle(verb, req, &mut sess.c15),
+        "c16" => c16::handle(verb, req, &mut sess.c16),
         "c17" => c17::handle(verb, req),
         "c18" => c18::handle(verb, req, &mut sess.c18),
         "machine" => machine::handle(verb, req, &mut sess.machine),
@@ -60,6 +63,7 @@ fn main() {
         c13: Default::default(),
         c14: Default::default(),
         c15: Default::default(),
+        c16: Default::default(),
         c18: Default::default(),
         machine: Default::default(),
     };
